@@ -43,6 +43,10 @@
 #  include <arpa/inet.h>
 #endif
 
+#ifdef HAVE_LIMITS_H
+#  include <limits.h>
+#endif
+
 #if defined(ANDROID) || defined(__ANDROID__)
 #  include <sys/system_properties.h>
 #  include "ares_android.h"
@@ -392,7 +396,8 @@ static ares_status_t process_option(ares_sysconfig_t *sysconfig,
   size_t        num = 0;
   const char   *key;
   const char   *val;
-  unsigned int  valint = 0;
+  unsigned int  valint    = 0;
+  ares_bool_t   valint_ok = ARES_FALSE;
   ares_status_t status;
 
   /* Split on : */
@@ -409,20 +414,35 @@ static ares_status_t process_option(ares_sysconfig_t *sysconfig,
 
   key = kv[0];
   if (num == 2) {
-    val    = kv[1];
-    valint = (unsigned int)strtoul(val, NULL, 10);
+    unsigned long v;
+
+    val = kv[1];
+    /* A value that isn't a plain decimal number, or that doesn't fit the int
+     * the public options carry, is malformed: it must not be applied as 0
+     * or as whatever it wraps around to */
+    if (ares_str_isnum(val)) {
+      v = strtoul(val, NULL, 10);
+      if (v <= (unsigned long)INT_MAX) {
+        valint    = (unsigned int)v;
+        valint_ok = ARES_TRUE;
+      }
+    }
   }
 
   if (ares_streq(key, "ndots")) {
+    if (!valint_ok) {
+      status = ARES_EFORMERR;
+      goto done;
+    }
     sysconfig->ndots = valint;
   } else if (ares_streq(key, "retrans") || ares_streq(key, "timeout")) {
-    if (valint == 0) {
+    if (!valint_ok || valint == 0 || valint > (unsigned int)INT_MAX / 1000) {
       status = ARES_EFORMERR;
       goto done;
     }
     sysconfig->timeout_ms = valint * 1000;
   } else if (ares_streq(key, "retry") || ares_streq(key, "attempts")) {
-    if (valint == 0) {
+    if (!valint_ok || valint == 0) {
       status = ARES_EFORMERR;
       goto done;
     }
